@@ -21,7 +21,7 @@ layout('h2.connection.H2ConnectionStateMachine', {
     'state': 'enum:ConnectionState',
 })
 
-layout('collections.deque', {'items': 'seqint', 'head_none': 'bool'})
+layout('collections.deque', {'cells': 'arrint', 'lo': 'int', 'hi': 'int', 'head_none': 'bool'})
 
 layout('h2.settings.Settings', {'_settings': 'map:collections.deque'})
 
